@@ -3,7 +3,7 @@
 # usage: tools/seedcheck.sh <PROP> <x> [check-args...]
 export GOFLAGS=-mod=mod GOPROXY=off GOSUMDB=off
 P=$1; X=$2; shift 2
-SRC=/tmp/seed-out/$P/$X; WT=/tmp/wt-$P; DST=/verif/seeded/$P-$X
+SRC=${SEEDOUT:-/tmp/seed-out}/$P/$X; WT=${WTPREFIX:-/tmp/wt-}$P; DST=/verif/seeded/$P-$X
 [ -f $SRC/patch.diff ] || { echo "no patch"; exit 2; }
 mkdir -p $DST; cp -r $SRC/* $DST/
 cd $WT && git checkout -q -- . && git clean -fdq
